@@ -9,7 +9,8 @@ A program is a dict:
   ('A', k) ($k), ('S',) ($span), ('X',) ($lexer.span_str($span)), ('D',) ($$), ('P',) (parse param);
   start, avoid_insert, parse_param (None | value), lex_section {flag: val}, lex_api {flag: val},
   settings {rec, ser, ed, vis, mody, modl, entry (build | pf), amp}, inputs [str], family;
-  big_programs (None | bytes of an extra programs section), unused_tokens [names the .l has and the .y lacks].
+  big_programs (None | bytes of an extra programs section), unused_tokens [names the .l has and the .y lacks],
+  param_name (name of the %parse-param, default `p`), scope (None | why the generated module is EXPECTED not to compile).
 """
 import re
 import unicodedata
@@ -32,7 +33,7 @@ def hx(s):
 
 # ---------------------------------------------------------------- action texts
 
-def item_code(it, prod, style):
+def item_code(it, prod, style, pname="p"):
     k = it[0]
     if k == 'A':
         kind = prod['syms'][it[1] - 1][0]
@@ -46,12 +47,12 @@ def item_code(it, prod, style):
     if k == 'D':
         return '"$$".to_string()'
     if k == 'P':
-        return 'format!("{}", p)'
+        return 'format!("{}", %s)' % pname
     raise ValueError(it)
 
 
-def action_text(label, prod, style=0, local=False):
-    items = ", ".join(item_code(it, prod, style) for it in prod['items'])
+def action_text(label, prod, style=0, local=False, pname="p"):
+    items = ", ".join(item_code(it, prod, style, pname) for it in prod['items'])
     lab = '"%s"' % label
     if local:
         lab = "gv_label(%s)" % lab
@@ -91,7 +92,7 @@ def render_y(prog):
     if yk == 'U':
         o.append("%actiontype String")
     if yk in 'GU' and prog.get('parse_param') is not None:
-        o.append("%parse-param p: u64")
+        o.append("%%parse-param %s: u64" % prog.get('param_name', 'p'))
     o.append("%%")
     style = prog.get('style', 0)
     for rn, prods in prog['rules']:
@@ -101,7 +102,8 @@ def render_y(prog):
             if not p['syms'] and prog.get('explicit_empty'):
                 s = "%empty"
             if yk in 'GU':
-                s += " { %s }" % action_text("%s.%d" % (rn, i), p, style, local=prog.get('local_label', False))
+                s += " { %s }" % action_text("%s.%d" % (rn, i), p, style, local=prog.get('local_label', False),
+                                             pname=prog.get('param_name', 'p'))
             alts.append(s)
         head = "%s -> String" % rn if yk == 'G' else rn
         o.append("%s:\n      %s\n    ;" % (head, "\n    | ".join(alts)))
@@ -528,6 +530,139 @@ def fam_states(rng):
                 extra_inputs=["a [ b [ c ] d ] 12", "a [ 1", "]", "[ x ! y", "[ [ ] ] ] a"])
 
 
+def fam_tied(rng, variant=None):
+    """inputs whose FIRST error has >= 2 equally ranked repair sequences (same %avoid_insert class, same length):
+    the one recovery applies — repairs()[0] — decides the value and every later error (/repo ca69cd1 made it a
+    function of the input).  Variants:
+      audit    the auditor's grammar `S: 'a' | 'b'` (C13 audit/1): the empty input, Insert 'a' | Insert 'b';
+      alt      statements `'k' V ';'` with V: 'a' | 'b' [| 'c']: every missing V is an error with 2-3 tied
+               insertions, the value shows which one was applied (Err(tok@…) under the production's label);
+      openers  lists with two openers `'[' Items ']' | '(' Items ')'`: items without an opener get Insert '[' |
+               Insert '(' (tied), and the closer that is missing at the end is a LATER error whose only repair
+               depends on the opener that was applied."""
+    variant = variant or rng.choice(["alt", "openers", "alt", "openers", "audit"])
+    if variant == "audit":
+        tokens = [("a", "a", None), ("b", "b", None)]
+        rules = [("S", [{'syms': [('t', 'a')]}, {'syms': [('t', 'b')]}])]
+
+        def sentence(depth=0):
+            return [rng.choice(["a", "b"])]
+        return dict(family="tied:audit", tokens=tokens, skip=["[ \\t\\n]+"], rules=rules, start="S", avoid_insert=[],
+                    sentence=sentence, alphabet=["a", "b"], full_items=True, extra_inputs=[" ", "\n", "a a", "b a"],
+                    n_inputs=1)
+    if variant == "alt":
+        nalt = rng.randint(2, 3)
+        alts = [("A", "a", None), ("B", "b", "'b'" if rng.random() < 0.5 else None), ("C", "c", None)][:nalt]
+        tokens = [("K", "k", None), ("SEMI", ";", None)] + alts
+        rng.shuffle(tokens)
+        rules = [("Prog", [{'syms': [('r', 'Stmt')]}, {'syms': [('r', 'Prog'), ('r', 'Stmt')]}]),
+                 ("Stmt", [{'syms': [('t', 'K'), ('r', 'V'), ('t', 'SEMI')]}]),
+                 ("V", [{'syms': [('t', n)]} for n, _, _ in alts])]
+        vals = [rx for _, rx, _ in alts]
+
+        def sentence(depth=0):
+            s = []
+            for _ in range(rng.randint(1, 4)):
+                s += ["k", rng.choice(vals), ";"]
+            return s
+
+        def holed():
+            """a sentence in which at least one V is missing"""
+            n = rng.randint(1, 4)
+            miss = {rng.randrange(n)} | {j for j in range(n) if rng.random() < 0.3}
+            s = []
+            for j in range(n):
+                s += ["k"] + ([] if j in miss else [rng.choice(vals)]) + [";"]
+            return s
+        extra = ["k ;", "k ; k ;", "k a ; k ;", "k ; k b ; k ;"] + [join_tokens(rng, holed()) for _ in range(14)]
+        return dict(family="tied:alt", tokens=tokens, skip=["[ \\t\\n]+"], rules=rules, start="Prog", avoid_insert=[],
+                    sentence=sentence, alphabet=["k", ";"] + vals, full_items=True, extra_inputs=extra, n_inputs=3)
+    tokens = [("LB", "\\[", None), ("RB", "\\]", None), ("LP", "\\(", "'('" if rng.random() < 0.5 else None),
+              ("RP", "\\)", None), ("X", "[a-z]+", None)]
+    rng.shuffle(tokens)
+    rules = [("L", [{'syms': [('t', 'LB'), ('r', 'Items'), ('t', 'RB')]}, {'syms': [('t', 'LP'), ('r', 'Items'), ('t', 'RP')]}]),
+             ("Items", [{'syms': []}, {'syms': [('r', 'Items'), ('r', 'Val')]}]),
+             ("Val", [{'syms': [('t', 'X')]}, {'syms': [('r', 'L')]}])]
+
+    def items(d):
+        s = []
+        for _ in range(rng.randint(0, 4)):
+            if d > 0 and rng.random() < 0.25:
+                o = rng.random() < 0.5
+                s += ["[" if o else "("] + items(d - 1) + ["]" if o else ")"]
+            else:
+                s.append(rng.choice(["x", "yy", "z"]))
+        return s
+
+    def sentence(depth=2):
+        o = rng.random() < 0.5
+        return ["[" if o else "("] + items(depth) + ["]" if o else ")"]
+
+    def bare():
+        """items without the outer brackets: the opener has to be inserted (either one)"""
+        s = items(1)
+        while len(s) < 1:
+            s = items(1)
+        return s
+    extra = ["x", "x x", "x x x", "x [ y ] z", "x ( y ) ( ) z"] + [join_tokens(rng, bare()) for _ in range(14)]
+    return dict(family="tied:openers", tokens=tokens, skip=["[ \\t\\n]+"], rules=rules, start="L", avoid_insert=[],
+                sentence=sentence, alphabet=["x", "[", "]", "(", ")"], full_items=True, extra_inputs=extra, n_inputs=3,
+                explicit_empty=rng.random() < 0.5)
+
+
+# ---- SCOPE: specifications the builders accept whose generated module rustc rejects (premise "once compiled" not
+# met: not findings).  checks/C13.py generates them, records the rustc failure as an observation and — should one
+# compile after a change of the code generator — compares it with the run-time pipeline like any other program.
+
+def fam_scope(rng, variant):
+    if variant == "rule-case":
+        # C13 audit/2: rule names differing only in case -> two `R_A` constants (E0428)
+        tokens = [("X", "x", None), ("Y", "y", None)]
+        rules = [("s", [{'syms': [('r', 'a'), ('r', 'A')]}]), ("a", [{'syms': [('t', 'X')]}]), ("A", [{'syms': [('t', 'Y')]}])]
+        return dict(family="scope:rule-case", tokens=tokens, skip=["[ \\t\\n]+"], rules=rules, start="s", avoid_insert=[],
+                    sentence=lambda depth=0: ["x", "y"], alphabet=["x", "y"], full_items=True, extra_inputs=["x y", "x", "y x"],
+                    n_inputs=0, scope="rule names differing only in ASCII case (`a`, `A`): gen_rule_consts writes two `R_A` constants")
+    if variant == "token-case":
+        # C13 audit/3: token names differing only in case -> two `N_E` constants (E0428)
+        tokens = [("e", "e", None), ("E", "E", None)]
+        rules = [("s", [{'syms': [('t', 'e'), ('t', 'E')]}])]
+        return dict(family="scope:token-case", tokens=tokens, skip=["[ \\t\\n]+"], rules=rules, start="s", avoid_insert=[],
+                    sentence=lambda depth=0: ["e", "E"], alphabet=["e", "E"], full_items=True, extra_inputs=["e E", "e", "E e"],
+                    n_inputs=0, scope="token names differing only in ASCII case (`e`, `E`): the lexer module gets two `N_E` constants")
+    if variant == "param-grm":
+        # C13 audit/4: `%parse-param grm: u64` is shadowed by the local `grm` of the generated parse() (E0308)
+        tokens = [("X", "x", None)]
+        rules = [("s", [{'syms': [('t', 'X')]}])]
+        return dict(family="scope:param-grm", tokens=tokens, skip=["[ \\t\\n]+"], rules=rules, start="s", avoid_insert=[],
+                    sentence=lambda depth=0: ["x"], alphabet=["x"], full_items=True, extra_inputs=["x", "x x"],
+                    n_inputs=0, scope="`%parse-param grm: u64`: the parameter is shadowed by the local `grm` of the generated parse()")
+    raise ValueError(variant)
+
+
+SCOPE_VARIANTS = [("rule-case", "G"), ("token-case", "G"), ("param-grm", "G")]
+
+
+def make_scope_program(rng, idx, variant, yk):
+    fam = fam_scope(rng, variant)
+    pr = make_program(rng, idx, family=lambda r: fam, yk=yk, forced={"rec": "C", "ser": "-", "ed": "2021", "vis": "priv", "mody": "-",
+                                                                    "modl": "-", "entry": "build", "amp": "-"})
+    pr['local_label'] = False
+    pr['style'] = 0
+    if variant == "param-grm":
+        pr['param_name'] = "grm"
+        pr['parse_param'] = 41
+        for _, prods in pr['rules']:
+            for p in prods:
+                p['items'] = [('A', 1), ('P',)]
+    else:
+        pr['parse_param'] = None
+        for _, prods in pr['rules']:
+            for p in prods:
+                p['items'] = [it for it in p['items'] if it[0] != 'P']
+    pr['pinned_keys'] = {"rec", "ser", "ed", "vis", "entry", "amp"}
+    return pr
+
+
 def fam_random(rng):
     for _ in range(50):
         g = grammars.reduced_random_grammar(rng, nrules=rng.randint(1, 4), ntoks=rng.randint(1, 4))
@@ -545,7 +680,7 @@ def fam_random(rng):
     return fam_list(rng)
 
 
-FAMILIES = [fam_expr, fam_list, fam_long, fam_flags, fam_insert, fam_avoid, fam_states, fam_random, fam_keywords]
+FAMILIES = [fam_expr, fam_list, fam_long, fam_flags, fam_insert, fam_avoid, fam_states, fam_random, fam_keywords, fam_tied]
 
 
 def make_inputs(rng, fam, n):
@@ -594,8 +729,8 @@ def make_program(rng, idx, family=None, yk=None, forced=None):
     if forced:
         prog['settings'].update(forced)
     fill_items(rng, prog)
-    prog['inputs'] = make_inputs(rng, fam, 5)
-    for k in ('sentence', 'alphabet'):
+    prog['inputs'] = make_inputs(rng, fam, fam.get('n_inputs', 5))
+    for k in ('sentence', 'alphabet', 'n_inputs'):
         prog.pop(k, None)
     return prog
 
